@@ -419,7 +419,7 @@ class BaseInput:
             Series: The assembled series.
         """
         dataframe = dataframe.apply(
-            lambda x: ', '.join(filter(lambda e: bool(e) and e != "n/a", map(str, x))),
+            lambda x: ', '.join(filter(lambda e: bool(e.strip(" ")) and e != "n/a", map(str, x))),
             axis=1
         )
         return dataframe
